@@ -247,6 +247,16 @@ class Ref:
             return self.skip(p), [], []
         if k == 'void':
             return self.skip(p), [], []
+        if k == 'meta' and e[1] == 'name':
+            p = self.skip(p)
+            q_ = p
+            if q_ < len(t) and (t[q_] == '_' or t[q_].isalpha() or t[q_] in self.namechars):
+                q_ += 1
+                while q_ < len(t) and (t[q_] == '_' or t[q_].isalnum() or t[q_] in self.namechars):
+                    q_ += 1
+                self.matched_terminals += 1
+                return q_, [t[p:q_]], []
+            raise PFail()
         if k == 'fail':
             raise PFail()
         if k == 'eof':
